@@ -92,7 +92,7 @@ def contract_suite(res, cases, per=250):
         return
     shards = ["Definition RE := %s.\nDefinition DD : decls := %s.\n%s\nDefinition cases : list (nat * option options * pyval) := [\n%s\n].\n"
               "Goal True. idtac \"CT\". exact I. Qed.\nEval vm_compute in (map ctest cases).\n"
-              % (table, world.decls_term(), CONTRACT_PRELUDE, ";\n".join(lines[s:s + per])) for s in range(0, len(lines), per)]
+              % (table, world.decls_term_for(lines[s:s + per]), CONTRACT_PRELUDE, ";\n".join(lines[s:s + per])) for s in range(0, len(lines), per)]
     hist = {}
     for rc, out in core.run_sharded("c05ct", ["Parse", "Verdict", "FieldSpec", "FieldProofs"], shards):
         vals = core.parse_nat_list(out, "CT") if rc == 0 else None
